@@ -80,6 +80,9 @@ type op struct {
 	Name string
 	// Arg reductions: names of simpler ops of the same family (for the frontier).
 	Simpler []string
+	// Derived: the operation is documented as returning a NEW map (Filter, Map,
+	// FromMap, decoding into a fresh map): the result must be independent of the receiver.
+	Derived bool
 	Do      func(x *M, m model) (*M, model, string)
 }
 
@@ -158,7 +161,7 @@ func alphabet(keys []string, vals []int) []op {
 		sortOp("Sort(a-first)", func(a, b string) bool { return a == "a" && b != "a" }),
 	)
 	filter := func(name string, pred func(k string, v int) bool) op {
-		return op{Name: name, Do: func(x *M, m model) (*M, model, string) {
+		return op{Name: name, Derived: true, Do: func(x *M, m model) (*M, model, string) {
 			before := canonImpl(x)
 			y := x.Filter(pred)
 			if after := canonImpl(x); after != before {
@@ -180,7 +183,7 @@ func alphabet(keys []string, vals []int) []op {
 		filter("Filter(val==1)", func(_ string, v int) bool { return v == 1 }),
 	)
 	mapOp := func(name string, f func(k string, v int) int) op {
-		return op{Name: name, Do: func(x *M, m model) (*M, model, string) {
+		return op{Name: name, Derived: true, Do: func(x *M, m model) (*M, model, string) {
 			before := canonImpl(x)
 			y := x.Map(f)
 			if after := canonImpl(x); after != before {
@@ -219,7 +222,7 @@ func alphabet(keys []string, vals []int) []op {
 		decode(`{"a":1}`, model{{"a", 1}}),
 		decode(fmt.Sprintf(`{"%s":%d,"a":%d}`, keys[len(keys)-1], hi, hi), model{{keys[len(keys)-1], hi}, {"a", hi}}),
 	)
-	ops = append(ops, op{Name: "Marshal->Unmarshal(fresh)", Do: func(x *M, m model) (*M, model, string) {
+	ops = append(ops, op{Name: "Marshal->Unmarshal(fresh)", Derived: true, Do: func(x *M, m model) (*M, model, string) {
 		b, err := x.MarshalJSON()
 		if err != nil {
 			return x, m, "MarshalJSON error: " + err.Error()
@@ -231,7 +234,7 @@ func alphabet(keys []string, vals []int) []op {
 		order, _ := orderedmap.VerifState(y)
 		return y, resync(m, nil, order), ""
 	}})
-	ops = append(ops, op{Name: "FromMap(records)", Do: func(x *M, m model) (*M, model, string) {
+	ops = append(ops, op{Name: "FromMap(records)", Derived: true, Do: func(x *M, m model) (*M, model, string) {
 		g := map[string]int{}
 		for _, p := range m {
 			g[p.K] = p.V
@@ -241,7 +244,94 @@ func alphabet(keys []string, vals []int) []op {
 		sort.Slice(mm, func(i, j int) bool { return mm[i].K < mm[j].K })
 		return y, mm, ""
 	}})
+	// Re-entrant histories: a callback of Iterate / Filter / Map calls Remove or Set on the
+	// map being walked, once, when it is handed key t. The statement's sequences include
+	// these (the inner call is an operation between two callback invocations). Demanded:
+	// no panic; the callback only ever sees keys that are (or were, at the start) in the map,
+	// each at most once, the old ones in first-insertion order, and none of the keys the inner
+	// call does not touch is skipped; afterwards the map is what the model says. Left open:
+	// whether a key removed (added) by the inner call is still (already) visited, and which
+	// value it is visited with.
+	for _, kind := range []string{"Iterate", "Filter", "Map"} {
+		for _, t := range keys {
+			for _, k := range keys {
+				for _, act := range []string{"Remove", "Set"} {
+					kind, t, k, act := kind, t, k, act
+					val := vals[len(vals)-1]
+					if len(vals) > 1 {
+						val = vals[1]
+					}
+					name := fmt.Sprintf("%s[at %s: %s(%s)]", kind, t, act, k)
+					if act == "Set" {
+						name = fmt.Sprintf("%s[at %s: Set(%s,%d)]", kind, t, k, val)
+					}
+					ops = append(ops, op{Name: name, Do: func(x *M, m model) (*M, model, string) {
+						snapshot := append(model(nil), m...)
+						var visited []string
+						fired := false
+						cb := func(key string, _ int) {
+							visited = append(visited, key)
+							if key == t && !fired {
+								fired = true
+								if act == "Remove" {
+									x.Remove(k)
+								} else {
+									x.Set(k, val)
+								}
+							}
+						}
+						switch kind {
+						case "Iterate":
+							x.Iterate(func(key string, v int) { cb(key, v) })
+						case "Filter":
+							x.Filter(func(key string, v int) bool { cb(key, v); return true })
+						case "Map":
+							x.Map(func(key string, v int) int { cb(key, v); return v })
+						}
+						mm := m
+						if snapshot.idx(t) >= 0 {
+							if act == "Remove" {
+								mm = m.remove(k)
+							} else {
+								mm = m.set(k, val)
+							}
+						}
+						return x, mm, visitedNote(kind, snapshot, visited, k, act == "Set")
+					}})
+				}
+			}
+		}
+	}
 	return ops
+}
+
+// visitedNote judges the keys handed to a callback during a re-entrant walk.
+func visitedNote(kind string, snapshot model, visited []string, touched string, added bool) string {
+	seen := map[string]bool{}
+	last := -1
+	for _, key := range visited {
+		if seen[key] {
+			return fmt.Sprintf("%s callback: key %q handed to the callback twice (visited %v)", kind, key, visited)
+		}
+		seen[key] = true
+		i := snapshot.idx(key)
+		if i < 0 {
+			if added && key == touched {
+				continue
+			}
+			return fmt.Sprintf("%s callback: called with key %q, which is not a key of the map (visited %v)", kind, key, visited)
+		}
+		if i < last {
+			return fmt.Sprintf("%s callback: keys not visited in first-insertion order (visited %v)", kind, visited)
+		}
+		last = i
+	}
+	for _, p := range snapshot {
+		if p.K != touched && !seen[p.K] {
+			return fmt.Sprintf("%s callback: key %q skipped although the inner call does not touch it (visited %v)", kind, p.K, visited)
+		}
+	}
+	return ""
 }
 
 // resync re-orders the keys of want that were not in old following the
@@ -615,7 +705,7 @@ func main() {
 				// independent of their source: apply every mutating operation to one of
 				// the two and check that the other one does not move (one-step lookahead
 				// over the pair, both directions).
-				if p == nil && nx != x {
+				if p == nil && (nx != x || o.Derived) {
 					for mi, mo := range ops {
 						if !isMutator(mo.Name) {
 							continue
